@@ -77,7 +77,7 @@ def gen(rng, tier):
                     j, _ = txgen.rand_tx(rng, kind=kind, chain=(1 if key != "chainId" else None), spellings=["int"], data_len=0, al_shape=[], to="addr")
                     tok, _ = txgen.spell(rng, v, [sp])
                     j2 = replace_field(j, key, tok)
-                    cases.append(Case("tx.parse " + hx(j2), tags=("spelling:" + sp, "kind:" + kind), meta={"group": repr(group), "field": key, "token": str(tok)}))
+                    cases.append(Case("tx.parse " + hx(j2), tags=("spelling:" + sp, "kind:" + kind), meta={"group": (repr(group) if not (sp.startswith("float") and v >= 10 ** 15) else None), "field": key, "token": str(tok)}))
     # 2. random well-formed documents
     for _ in range(1500 if tier == "thorough" else 300):
         j, _ = txgen.rand_tx(rng)
